@@ -190,6 +190,10 @@ func (w *World) Exec(p int, op Op) Obs {
 		return w.doUsePar(p, op)
 	case "clientchange":
 		return w.doClientChange(p, op)
+	case "jauth":
+		return w.doJAuth(p, op.Val)
+	case "jbearer":
+		return w.doJWTBearer(p, BearerSpec{Iss: "iss-1", Sub: "sub-1", Kid: "kid-1", Scopes: []string{"a"}, JTI: op.Val})
 	case "noop":
 		return newObs()
 	}
@@ -213,6 +217,9 @@ func (w *World) authorizeQuery(op Op) url.Values {
 	}
 	if op.Redir == "sent" {
 		q.Set("redirect_uri", RedirectOf[op.Client])
+	}
+	for k, v := range w.ExtraAuthz {
+		q[k] = v
 	}
 	return q
 }
@@ -263,7 +270,7 @@ func (w *World) finishAuthorize(p int, op Op, q url.Values, o Obs) Obs {
 	for _, a := range ar.GetRequestedAudience() {
 		ar.GrantAudience(a)
 	}
-	resp, err := w.Provider.NewAuthorizeResponse(ctx, ar, NewSess(Subject))
+	resp, err := w.Provider.NewAuthorizeResponse(ctx, ar, w.session())
 	if err != nil {
 		o.Res = errName(err)
 		w.Provider.WriteAuthorizeError(ctx, rec, ar, err)
@@ -631,6 +638,7 @@ type Proj struct {
 	NOidc        int   `json:"n_oidc"`
 	NPar         int   `json:"n_par"`
 	NDev         int   `json:"n_dev"`
+	NJTI         int   `json:"n_jti"`
 }
 
 func (w *World) Project() Proj {
@@ -683,6 +691,7 @@ func (w *World) Project() Proj {
 			pr.Par = append(pr.Par, i+1)
 		}
 	}
+	pr.NJTI = len(m.BlacklistedJTIs)
 	pr.NAT, pr.NRT, pr.NCode, pr.NPkce, pr.NOidc, pr.NPar, pr.NDev = len(m.AccessTokens), len(m.RefreshTokens), len(m.AuthorizeCodes), len(m.PKCES), len(m.IDSessions), len(m.PARSessions), len(m.DeviceAuths)
 	return pr
 }
@@ -717,7 +726,7 @@ func (w *World) doDevStart(p int, op Op) Obs {
 	for _, a := range dr.GetRequestedAudience() {
 		dr.GrantAudience(a)
 	}
-	resp, err := w.Provider.NewDeviceResponse(ctx, dr, NewSess(Subject))
+	resp, err := w.Provider.NewDeviceResponse(ctx, dr, w.session())
 	if err != nil {
 		o.Res = errName(err)
 		w.Provider.WriteAccessError(ctx, rec, dr, err)
@@ -907,4 +916,18 @@ func (w *World) verifierOf(code int) string {
 		return v
 	}
 	return verifierFor(900+code, "") // the code was obtained without PKCE: any well-formed verifier
+}
+
+// doJAuth authenticates client J with a private_key_jwt assertion carrying the given jti
+// and asks for a client_credentials token.
+func (w *World) doJAuth(p int, jti string) Obs {
+	_, _, k2 := Keys()
+	now := time.Now()
+	assertion := signJWT("RS256", k2, "kid-j", map[string]interface{}{"iss": "J", "sub": "J", "aud": TokenURL, "exp": now.Add(Tick).Unix(), "iat": now.Unix(), "jti": jti})
+	req := postReq("/token")
+	form := url.Values{"grant_type": {"client_credentials"}, "scope": {"a"},
+		"client_assertion_type": {"urn:ietf:params:oauth:client-assertion-type:jwt-bearer"}, "client_assertion": {assertion}}
+	finishPost(req, form)
+	o, _, _ := w.tokenCall(p, req, true)
+	return o
 }
